@@ -250,6 +250,8 @@ def _run_cases(chk, judge, exe, work):
                 tag = box_cause(fd, resl.get(cid), case)
             if fd.get("cmd") == "cip":
                 tag = cip_cause(case, detail)
+            if fd.get("cmd") == "drop" and fd.get("dim") == 0:
+                tag = "zero-dim-universe"
             info = {"site": site, "kind": kind, "domain": fd.get("dom"), "cause": tag}
             if fd.get("cmd") == "wrap":
                 info["path"] = ("collective" if fd.get("ind") == 0 else "individual") + "-" + {0: "wraps", 1: "undefined", 2: "impossible"}.get(fd.get("ov"), "?")
